@@ -251,6 +251,15 @@ theorem realify_mul (X₁ Y₁ X₂ Y₂ : Matrix (Fin n) (Fin n) R) :
   · rw [add_comm]
   · rw [Matrix.mul_neg, add_comm, sub_eq_add_neg]
 
+/-- WHICH real block form: `slc_to_slr(X + iY)` acts on `(Re v, Im v)` as `X + iY` acts on `v = u + iw`
+(real part `Xu - Yw`, imaginary part `Yu + Xw`).  This pins the complex structure: the other multiplicative
+choice `[[X, Y], [-Y, X]]` (realification with respect to `-i`) does not satisfy it. -/
+theorem realify_acts (X Y : Matrix (Fin n) (Fin n) R) (u w : Fin n → R) :
+    realify X Y *ᵥ Sum.elim u w = Sum.elim (X *ᵥ u - Y *ᵥ w) (Y *ᵥ u + X *ᵥ w) := by
+  unfold realify
+  rw [Matrix.fromBlocks_mulVec]
+  simp only [Sum.elim_comp_inl, Sum.elim_comp_inr, Matrix.neg_mulVec, sub_eq_add_neg]
+
 theorem realify_one : realify (1 : Matrix (Fin n) (Fin n) R) 0 = 1 := by
   unfold realify
   rw [neg_zero, Matrix.fromBlocks_one]
